@@ -955,11 +955,14 @@ def get_input_string(
     def graph():
         return gg.GrammarGraph.from_grammar(grammar)
 
-    return (
-        safe(lambda: json.loads(inp))()
-        .map(DerivationTree.from_parse_tree)
-        .map(lambda tree: eassert(tree, graph().tree_is_valid(tree)))
-        .lash(lambda _: safe(lambda: solver().parse(inp, skip_check=True))())
+    def tree_from_json() -> DerivationTree:
+        # Inputs such as `2` or `[1]` are valid JSON, but no derivation trees:
+        # every failure in here means that the input has to be parsed as a string.
+        tree = DerivationTree.from_parse_tree(json.loads(inp))
+        return eassert(tree, graph().tree_is_valid(tree))
+
+    return safe(tree_from_json)().lash(
+        lambda _: safe(lambda: solver().parse(inp, skip_check=True))()
     )
 
 
